@@ -151,6 +151,12 @@ pub fn fork_probe(f: impl FnOnce() -> i32) -> (ProbeOutcome, String) {
 }
 
 static mut PROBE_FD: i32 = -1;
+pub fn in_probe_child() -> bool {
+    unsafe { PROBE_FD >= 0 }
+}
+pub fn exit_now(code: i32) -> ! {
+    unsafe { libc::_exit(code) }
+}
 /// Inside a fork_probe child: send text to the parent.
 pub fn probe_say(s: &str) {
     unsafe {
